@@ -118,8 +118,9 @@ def call_helper(f, n, s):
         else:
             mx.mixed_steps_tabulation(n, s)
             ms.n_advance(n, s)
-            ms.allocate_snapshots(n + 1, 1, max(s, 1), write_weight=0.0, read_weight=1.0)
-            ms.allocate_snapshots(n + 2, 2, max(s, 1), trajectory="revolve", delete_weight=1.0)
+            for s2 in (1, 2, 3):
+                ms.allocate_snapshots(n + 1, 1, s2, write_weight=0.0, read_weight=1.0)
+                ms.allocate_snapshots(n + 3, 2, s2, trajectory="revolve", delete_weight=1.0)
     except Exception:
         pass
 
